@@ -64,7 +64,7 @@ def run(rep, tier):
     rule_helpers(rep, m)
     rule_sessions(rep, tier)
     rep.floor("C14.D1", 3 + 24)
-    rep.floor("C14.D2", 3)
+    rep.floor("C14.D2", 1)
     rep.floor("C14.D3", 13)
 
 
@@ -245,8 +245,59 @@ def rule_placement_cpp(rep, m):
 
 
 def rule_increment(rep, m):
+    """D2.  The shape proof (_increment_shape: one loop from byte 15 down to 0,
+    carry transfer function checked for all 512 (carry, byte) pairs) is exact
+    for every nonce but knows one shape of the function.  Its findings are
+    therefore confirmed by evaluating the function (constant propagation through
+    the IR, helpers included) on nonces that exercise every carry length: a
+    wrong result is a violation with its witness; if all agree, the shape is
+    simply not the known one and the clause is left unproved."""
+    from . import report as _report
+    from .affine import Machine, Unsupported, const_bits, to_int, is_const
+    from .sponge import cbytes
+    import hashlib
     rid = "C14.D2"
     rep.rule(rid, "ascon_aead_increment_nonce adds one to the 128-bit big-endian integer (loop coverage + carry transfer function)")
+    probe = _report.Report("C14", "quick")
+    probe._known = []
+    _increment_shape(probe, m)
+    if not probe.violations:
+        rep.merge(probe.export())
+        return
+    f = m.funcs[INC]
+    nonces = [bytes([0xff] * 16), bytes(16)]
+    for k in range(16):
+        for v in (0x00, 0x7f, 0xfe):
+            hi = hashlib.sha256(b"c14-%d-%d" % (k, v)).digest()[:15 - k]
+            nonces.append(hi + bytes([v]) + bytes([0xff] * k))
+    bad = None
+    try:
+        for nb in nonces:
+            mc = Machine(m)
+            ob = mc.new_obj("N", 16, symbolic=False)
+            mc.store(ob, cbytes(nb))
+            mc.call(INC, [ob])
+            got = mc.load(ob, 16)
+            if not is_const(got):
+                raise Unsupported("evaluation on a constant nonce did not give a constant")
+            gb = bytes(to_int(got[8 * k:8 * k + 8]) for k in range(16))
+            want = ((int.from_bytes(nb, "big") + 1) % (1 << 128)).to_bytes(16, "big")
+            if gb != want:
+                bad = (nb, gb, want)
+                break
+    except Unsupported as e:
+        rep.unproved_item(rid, "shape proof inconclusive (%s) and the function is not evaluable: %s" % (probe.violations[0]["message"][:100], e))
+        return
+    if bad:
+        rep.violation(rid, "increment:value", f.src, "ascon_aead_increment_nonce(%s) gives %s, the 128-bit big-endian successor is %s "
+                      "(shape proof: %s)" % (bad[0].hex(), bad[1].hex(), bad[2].hex(), probe.violations[0]["message"][:120]))
+    else:
+        rep.unproved_item(rid, "shape proof of the increment inconclusive (%s); %d evaluated nonces covering every carry length agree "
+                          "with the big-endian successor" % (probe.violations[0]["message"][:120], len(nonces)))
+
+
+def _increment_shape(rep, m):
+    rid = "C14.D2"
     f = m.funcs.get(INC)
     if f is None or f.decl:
         raise repo.AnalysisBroken(INC + " not defined")
